@@ -880,6 +880,7 @@ MUTANTS = [
     Mutant("memoize-args-only-key", F, "                    (args, kwargs),\n", "                    (args, kwargs) if kwargs else args,\n", ("C15.8-sole",), why="seeded C15/3"),
     Mutant("twin-rename-marker", F, "    m = _HASH_MARKER\n", "    m = _HASH_MARKER  # marker\n", twin=True),
     Mutant("twin-set-tuple-test", F, "if isinstance(obj, set | frozenset):", "if isinstance(obj, (set, frozenset)):", twin=True),
-    Mutant("twin-sorted-helper-inline", F, "    items = list(items)\n    try:\n        return sorted(items, key=key)",
-           "    items = list(items)\n    try:\n        result = sorted(items, key=key)\n        return result", twin=True),
+    Mutant("twin-sorted-helper-inline", F, "    items = list(items)\n    try:\n        return sorted(items, key=lambda x: _sort_key(key(x)))",
+           "    items = list(items)\n    try:\n        result = sorted(items, key=lambda x: _sort_key(key(x)))\n        return result", twin=True),
+    Mutant("natural-sort-of-partial-orders-F48", F, "        return sorted(items, key=lambda x: _sort_key(key(x)))\n", "        return sorted(items, key=key)\n", ("C15.3-order",), why="original F48"),
 ]
